@@ -9,11 +9,11 @@ Proof. exact levenshtein_is_edit_distance. Qed.
 Print Assumptions C20_levenshtein_correct.
 
 (* a sheet name is reported as a likely misspelling of `key` iff it is within distance 2 (case folded),
-   is not itself a supported sheet name and does not start with an underscore *)
+   is not itself (case folded) a supported sheet name and does not start with an underscore *)
 Theorem C20_misspelling_iff : forall (lower : str -> str) key keys k,
   In k (misspelling_candidates lower SUPPORTED_SHEET_NAMES key keys) <->
   In k keys /\ edit (rev (lower k)) (rev key) <= N.to_nat MISSPELL_MAX_DISTANCE
-  /\ ~ In k docs_sheet_names /\ starts_with [UNDERSCORE] k = false.
+  /\ ~ In (lower k) docs_sheet_names /\ starts_with [UNDERSCORE] k = false.
 Proof.
   intros. destruct warn_constants_pinned as (-> & _ & _ & <- & _). apply misspelling_iff.
 Qed.
